@@ -690,7 +690,7 @@ func propListed(list, id string) bool {
 }
 
 func isNamedKind(name string) bool {
-	for _, k := range []string{"/post", "/frame", "/inv-", "lemma/", "/decreases", "structural/", "/step", "/subtype"} {
+	for _, k := range []string{"/post", "/frame", "/inv-", "lemma/", "/decreases", "structural/", "/step", "/subtype", "/sink@"} {
 		if strings.Contains(name, k) {
 			return true
 		}
